@@ -32,7 +32,7 @@ use binrw::BinRead;
 
 use crate::api::{LodAdt, McnkChunkObject, McnkChunkTexture, Obj0Adt, Tex0Adt};
 use crate::chunk_discovery::ChunkDiscovery;
-use crate::chunk_header::ChunkHeader;
+use crate::chunk_header::{ChunkHeader, read_chunk_data};
 use crate::chunk_id::ChunkId;
 use crate::chunks::mcnk::{McrdChunk, McrwChunk};
 use crate::chunks::{
@@ -343,17 +343,15 @@ fn parse_mcnk_texture_chunks<R: Read + Seek>(
             match subchunk_header.id {
                 ChunkId::MCLY => {
                     // Read chunk data into buffer to prevent reading into next chunk
-                    let mut chunk_data = vec![0u8; subchunk_header.size as usize];
                     reader.seek(SeekFrom::Start(current_pos))?;
-                    reader.read_exact(&mut chunk_data)?;
+                    let chunk_data = read_chunk_data(reader, subchunk_header.size)?;
                     let mut cursor = std::io::Cursor::new(chunk_data);
                     layers = Some(MclyChunk::read_le(&mut cursor)?);
                 }
                 ChunkId::MCAL => {
                     // Read chunk data into buffer to prevent reading into next chunk
-                    let mut chunk_data = vec![0u8; subchunk_header.size as usize];
                     reader.seek(SeekFrom::Start(current_pos))?;
-                    reader.read_exact(&mut chunk_data)?;
+                    let chunk_data = read_chunk_data(reader, subchunk_header.size)?;
                     let mut cursor = std::io::Cursor::new(chunk_data);
                     alpha_maps = Some(McalChunk::read_le(&mut cursor)?);
                 }
